@@ -105,7 +105,28 @@ CHECKS["C12"] = dict(
     design_ref="DESIGN.md section 4 (C12)",
 )
 
+CHECKS["C15"] = dict(
+    category="proof",
+    text="Layout part: for nested dict / tuple / namedtuple states with leaves of rank 0..3, flatten_tree and unflatten_array of the three factorisations are mutually inverse with the documented ravel orders (coefficient-major dense, (n,d) isotropic, (d,n) block-diagonal), and means / standard deviations come back in the caller's structure with the caller's values (pure data movement, decided exactly by index tracing).",
+    note="NOT covered by a contract: permutation equivariance (would be a relational lemma like C14) and the jit / vmap clauses -- equality of jit(f) / vmap(f) with f is JAX's specification of its transformations, not a property of a function in /repo; what the other checks establish is that every function under contract extracts to a closed, effect-free jaxpr from abstract inputs (the precondition under which JAX's contract applies). Time-axis prepending is part of the C04 userfriendly_output contracts.",
+    design_ref="DESIGN.md section 4 (C15), 8.4",
+)
+CHECKS["C16"] = dict(
+    category="proof",
+    text="The only hand-written differentiation rule, qr_r_jvp, is verified against the derivative of the kernel contract of qr_r (R upper triangular, R^T R = M^T M): the differentiated Gram identity holds; upper-triangularity of the tangent fails (known finding). stop_gradient occurs in the extracted jaxprs of the steps / step attempts only at the two documented places and only when the flags request it; the custom rule is linear in the tangent and built from transposable primitives (forward = reverse).",
+    note="JAX's differentiation of standard primitives (and hence 'derivatives equal directional derivatives' away from the custom rule) is trusted, not proved; finiteness side conditions (sqrt/div/log at singular points) are not discharged; reduced QR (jnp.linalg.qr) is a kernel axiom (Q R = M, Q^T Q = I)",
+    design_ref="DESIGN.md section 4 (C16), 8.5",
+)
+CHECKS["C20"] = dict(
+    category="exploration",
+    technique="bounded stand-in (not a proof): exhaustive native enumeration of single-field corruptions over a stated finite domain; the validators are trace-time Python outside the reach of the jaxpr-based VC generator",
+    text="Bounded stand-in allowed by the brief, never counted as proved: every listed public entry point x every single-field corruption of a valid argument set in a stated finite domain x three factorisations is executed natively and must raise at construction or first use (or emit the documented warning).",
+    note="the validators are trace-time Python over shapes / tree structures / dtypes / types and do not appear in any jaxpr, so no obligation can be generated for them with the tooling present; the domain is finite and listed in the evidence (coverage.rule); one known finding (isotropic residual error estimate, shape coincidence)",
+    design_ref="DESIGN.md section 4 (C20), 8.4",
+)
+
 NOT_APPLICABLE = {
+    "C14": "no dedicated check yet: each factorisation's step is proved equal to the textbook EKF with its documented structure (C02), so agreement is a corollary at the specification level (embedding lemmas), which is not machine-checked in this round; the seeded C14 change is caught by the C02 check",
     "C01": "global accuracy / convergence order against the true ODE solution is not a postcondition of one call nor a data-structure invariant; no contract over the code implies it (DESIGN section 4, C01)",
 }
 
